@@ -173,7 +173,9 @@ def judge_find(ctx, args, res, exc, diag, origin):
                 or str(atol.dtype) not in ('float64', 'int64'):
             ctx.count('find.out_of_domain:arguments')
             return
-        if not (_finite(y) and _finite(x) and np.isfinite(float(atol.value))) or not _sorted_ascending(x):
+        # the coordinate and the tolerance must be numbers; the DATA may hold NaN / +-inf (a log with a missing
+        # or overflowed reading): the definition is an IEEE expression and stays defined for them
+        if not (_finite(x) and np.isfinite(float(atol.value))) or not _sorted_ascending(x):
             ctx.count('find.out_of_domain:non_finite_or_unsorted')
             return
         # integer differences are formed in int64 (as documented: y[i+1]-y[i], x[i+1]-x[i]); they must not wrap
@@ -182,11 +184,11 @@ def judge_find(ctx, args, res, exc, diag, origin):
                 int(M.as_number_array(x)[-1]) - int(M.as_number_array(x)[0]) >= 2**53:
             ctx.count('find.out_of_domain:integer_span')
             return
+        # Equal neighbouring coordinate values are part of "ascending" (sc.issorted(..., 'ascending') accepts
+        # them, e.g. a log entry written twice).  The slope there is x/0: +-inf when the data values differ (it
+        # exceeds every tolerance: a break), NaN when they are equal as well (0/0: it does not exceed the
+        # tolerance, the comparison NaN > atol is False: no break, the run goes on).  Same for NaN data values.
         xn = M.as_number_array(x)
-        dx0 = xn[1:] == xn[:-1]
-        if np.any(dx0 & (y[1:] == y[:-1])):
-            ctx.count('find.out_of_domain:0/0 slope')  # NaN slope: "within tolerance" undefined
-            return
         factor = M.derivative_factor(atol.unit, data.unit, data.coords[dim].unit)
         if factor is None:
             ctx.count('find.out_of_domain:unit_not_in_table')
@@ -223,8 +225,11 @@ def judge_find(ctx, args, res, exc, diag, origin):
         if runs is None:
             ctx.count('undecided:find.slope_within_16ulp_of_scaled_atol')
             return
-        runs_all = M.runs_from_breaks(s > thr, n, 1) if factor == 1 else None
-        tie = bool(np.any(s == thr)) if factor == 1 else False
+        with np.errstate(invalid='ignore'):
+            runs_all = M.runs_from_breaks(s > thr, n, 1) if factor == 1 else None
+            tie = bool(np.any(s == thr)) if factor == 1 else False
+        odd = _odd_slopes(xn, y, s)
+        case['coordinate_ties'] = odd['cls']
         near = False
         if factor == 1 and np.isfinite(thr) and thr > 0:
             t64 = np.float64(thr)
@@ -243,7 +248,8 @@ def judge_find(ctx, args, res, exc, diag, origin):
         ctx.oracle_error('C19 find_plateaus model')
         return
 
-    keys = {'function': 'find_plateaus', 'tie': tie, 'unit': unit_cls, 'x_dtype': xk, 'y_dtype': yk}
+    keys = {'function': 'find_plateaus', 'tie': tie, 'unit': unit_cls, 'x_dtype': xk, 'y_dtype': yk,
+            'coordinate_ties': odd['cls'], 'data_finite': odd['finite']}
     # ---- observed structure
     try:
         ok = isinstance(res, sc.DataArray) and res.bins is not None and tuple(res.dims) == (pdim,)
@@ -264,8 +270,9 @@ def judge_find(ctx, args, res, exc, diag, origin):
     sizes_obs = end - begin
     sizes_exp = np.array([b - a for a, b in runs], dtype=np.int64)
     ctx.case(('find', yk, xk, unit_cls, 'tie' if tie else ('ulp' if near else 'off'),
-              _min_cls(min_n, n, mn), _size_band(n), len(runs) > 0))
+              _min_cls(min_n, n, mn), _size_band(n), len(runs) > 0, odd['cls'], odd['finite']))
     _forced_find(ctx, runs, n, min_n, mn, tie, s, thr, xk, factor)
+    _forced_ties(ctx, odd, runs, n, min_n, xk)
 
     # locate observed bins in the input (possible when the coordinate is strictly ascending)
     obs_runs = None
@@ -414,6 +421,61 @@ def _judge_carried(ctx, data, res, buf, dim, pdim, idx_obs, idx_exp, case, keys)
     if extra:
         ctx.count('find.bins_hold_coordinates_the_input_did_not_have')
         case['extra_bin_coords'] = extra[:5]
+
+
+def _odd_slopes(xn, y, s):
+    """Where the slope is not a finite number and why (coordinate ties, non-finite data values)."""
+    dx0 = xn[1:] == xn[:-1]
+    nan_s, inf_s = np.isnan(s), np.isinf(s)
+    yf = np.isfinite(y) if y.dtype.kind == 'f' else np.ones(len(y), dtype=bool)
+    tie_nan = dx0 & nan_s          # 0/0 (or NaN/0): equal coordinates, no slope exceeding anything
+    tie_inf = dx0 & inf_s          # dy/0: equal coordinates, different data
+    cls = ('both' if tie_nan.any() and tie_inf.any() else '0/0' if tie_nan.any()
+           else 'dy/0' if tie_inf.any() else 'none')
+    finite = 'finite' if yf.all() else ('nan' if np.isnan(y[~yf]).any() else 'inf')
+    return {'dx0': dx0, 'tie_nan': tie_nan, 'tie_inf': tie_inf, 'nan_s': nan_s, 'cls': cls, 'finite': finite,
+            'y_nan': ~yf & np.isnan(y) if y.dtype.kind == 'f' else ~yf,
+            'y_inf': ~yf & np.isinf(y) if y.dtype.kind == 'f' else ~yf}
+
+
+def _forced_ties(ctx, odd, runs, n, min_n, xk):
+    dx0, tie_nan, tie_inf, nan_s = odd['dx0'], odd['tie_nan'], odd['tie_inf'], odd['nan_s']
+    if dx0.any():
+        ctx.count('find.judged_with_coordinate_ties')
+        ctx.hit('coordinate tie in a ' + xk + ' coordinate')
+        if dx0[0]:
+            ctx.hit('coordinate tie at the very start')
+        if dx0[-1]:
+            ctx.hit('coordinate tie at the very end')
+        if np.any(dx0[1:-1]):
+            ctx.hit('coordinate tie in the middle')
+        if np.any(dx0[1:] & dx0[:-1]):
+            ctx.hit('several coordinate ties in a row')
+        if dx0.all():
+            ctx.hit('all coordinate values equal')
+    if tie_nan.any():
+        ctx.hit('coordinate tie with equal data (0/0 slope: no break)')
+        ctx.hit('0/0 slope in a ' + xk + ' coordinate')
+    if tie_inf.any():
+        ctx.hit('coordinate tie with different data (infinite slope: a break)')
+    if np.any(tie_nan[1:] & tie_inf[:-1]) or np.any(tie_inf[1:] & tie_nan[:-1]):
+        ctx.hit('0/0 slope next to an infinite slope')
+    if odd['y_nan'].any():
+        ctx.count('find.judged_with_nan_data')
+        ctx.hit('NaN data value inside a series')
+        if np.any(odd['y_nan'][1:] & dx0) or np.any(odd['y_nan'][:-1] & dx0):
+            ctx.hit('NaN data value at a coordinate tie')
+    if odd['y_inf'].any():
+        ctx.hit('infinite data value inside a series')
+    # NaN slopes that lie INSIDE a returned plateau (a split there would change the result), and plateaus that
+    # reach min_n_points only because the NaN slope does not split them
+    for i in np.flatnonzero(nan_s).tolist():
+        for a, b in runs:
+            if a <= i and i + 1 < b:
+                ctx.hit('NaN slope inside a returned plateau')
+                if max(i + 1 - a, b - i - 1) < min_n:
+                    ctx.hit('plateau reaching min_n_points only across a NaN slope')
+                break
 
 
 def _min_cls(min_n, n, mn):
